@@ -30,6 +30,7 @@ CONSTANTS Templates,    \* sequence of node templates [path, dtype, shape, has, 
           SliceMenu,    \* sequence of [shape, sl]: slices offered on a referenced value of that shape
           HostUnits,    \* units a referencing line may state (besides stating none)
           MaxDef, MaxMod, MaxRef, MaxLate,
+          MaxCmp,       \* comparisons `t bool = ("{?l} > {?r}")` of two referenced numbers (readers: change nothing)
           Modes,        \* subset of {"base", "remote"}: switches offered ("local" = no switch)
           InjHosts,     \* fresh host paths for injecting definitions
           ImpHosts,     \* sequence of [host, form] for imports
@@ -356,7 +357,7 @@ Line(ln) == prog' = Append(prog, ln)
 
 UnitLine == [k |-> "unit", name |-> "hm", val |-> 100, unit |-> "m"]
 Init == /\ prog = (IF CustomUnit THEN <<UnitLine>> ELSE <<>>) /\ mode = "local" /\ iS = S0 /\ mS = S0 /\ iSnap = <<>> /\ mSnap = <<>>
-        /\ cnt = [def |-> 0, mod |-> 0, ref |-> 0, late |-> 0, sw |-> 0, fresh |-> {}, srcs |-> {}] /\ lastT = 0
+        /\ cnt = [def |-> 0, mod |-> 0, ref |-> 0, late |-> 0, sw |-> 0, cmp |-> 0, fresh |-> {}, srcs |-> {}] /\ lastT = 0
 
 Going == iS.st = "ok"
 
@@ -461,10 +462,42 @@ Import ==
                    qk |-> qy.qk, q |-> qy.q] IN
         RefStep(IImport(iS, iSnap, mode, ln), MApply(mS, MImport(mS, mSnap, mode, ln)), ln)
 
+\* a logical expression that compares two referenced numbers: `host bool = ("{?l} op {?r}")`.
+\* IDEAL: the host gets the truth value (right operand read in the unit of the left one, exactly); the
+\* operands are only READ.  MACHINE: LogicalSolver requests copies (NodeList.query -> node.copy()) and
+\* NumberType._prepare converts the left COPY in place - nothing else changes.
+RECURSIVE Pow10(_)
+Pow10(d) == IF d = 0 THEN 1 ELSE 10 * Pow10(d - 1)
+CmpVal(op, l, r) ==
+  LET d == (l.val.e + UExp(l.unit)) - (r.val.e + UExp(r.unit))
+      a == IF d >= 0 THEN l.val.n * Pow10(d) ELSE l.val.n
+      b == IF d >= 0 THEN r.val.n ELSE r.val.n * Pow10(0 - d)
+  IN IF op = ">" THEN a > b ELSE a = b
+CmpDecided(l, r) == /\ l.dtype = r.dtype /\ l.unit # "" /\ r.unit # ""
+                    /\ (l.val.e + UExp(l.unit)) - (r.val.e + UExp(r.unit)) \in -6..6
+Compare ==
+  /\ Going /\ cnt.cmp < MaxCmp /\ cnt.late = 0
+  /\ \E i, j \in 1..Len(iS.nodes) : \E op \in {">", "=="} :
+     LET l == iS.nodes[i]  r == iS.nodes[j]
+         ln == [k |-> "cmp", host |-> <<"t" \o ToString(cnt.cmp + 1)>>, l |-> l.path, r |-> r.path, op |-> op] IN
+     /\ i # j /\ l.has /\ r.has /\ Numeric(l.dtype) /\ Numeric(r.dtype) /\ l.shape = <<>> /\ r.shape = <<>>
+     /\ ln.host \notin Paths(iS.nodes)
+     /\ LET rej == UDim(l.unit) # UDim(r.unit) /\ l.unit # "" /\ r.unit # ""      \* "Unsupported conversion between units"
+            v == IF rej \/ ~CmpDecided(l, r) THEN FALSE ELSE CmpVal(op, l, r)
+            iS1 == IF rej THEN Rej(iS)
+                   ELSE [(IF CmpDecided(l, r) THEN iS ELSE Unspec(iS)) EXCEPT
+                         !.nodes = Append(@, INode(ln.host, "bool", <<>>, TRUE, v, "", FALSE))]
+            mS1 == IF rej \/ Find(mS.nodes, l.path) = 0 \/ Find(mS.nodes, r.path) = 0 THEN Rej(mS)
+                   ELSE [mS EXCEPT !.nodes = Append(@, MNode(ln.host, "bool", <<>>, TRUE, v, "", FALSE, FALSE,
+                                                             TRUE, v, 0, NoRef, <<>>, FALSE))]
+        IN /\ iS' = iS1 /\ mS' = MApply(mS, mS1) /\ Line(ln)
+           /\ cnt' = [cnt EXCEPT !.cmp = @ + 1, !.srcs = @ \cup {l.path, r.path}]
+  /\ UNCHANGED <<mode, iSnap, mSnap, lastT>>
+
 Next == \/ \E i \in 1..Len(Templates) : Define(i)
         \/ \E j \in 1..MaxDef + 8 : \E m \in 1..Len(ModMenu) : Modify(j, m)
         \/ \E md \in Modes : Switch(md)
-        \/ Inject \/ Import
+        \/ Inject \/ Import \/ Compare
 
 Spec == Init /\ [][Next]_vars
 
@@ -487,7 +520,7 @@ BaseUnchanged == (mode = "base" /\ mS.st = "ok") => ToString(Data(MBaseNow)) = T
 \* every disagreement of the transcription with the ideal is one of the named deviations
 Explained == (~Agree /\ ~IEnd.unspec) => MEnd.tags # {}
 
-Kinds == {prog[j].k : j \in 1..Len(prog)} \ {"def", "mod", "switch", "unit"}
+Kinds == {prog[j].k : j \in 1..Len(prog)} \ {"def", "mod", "switch", "unit", "cmp"}
 Complete == Len(prog) > 0 /\ prog[Len(prog)].k \notin {"switch", "unit"}
             /\ (cnt.ref >= 1 \/ (mode = "base" /\ prog[Len(prog)].k = "mod"))
 
